@@ -398,7 +398,7 @@ def engine_streams(rng, tier, boost):
         out.append(('engine-soup', dict(kind='engine', toks=toks, names=[n for n in EL.names_in(toks) if n not in EL.PRIMS] + ['zqa'][:0])))
     for _ in range((300 if q else 3000) * boost):
         f1 = rng.random() < 0.5
-        out.append(('print', dict(kind='print', prog=EL.gen_prog(rng, f1_only=f1, max_params=rng.choice([3, 9]), delims=False, allow_nested=False))))
+        out.append(('print', dict(kind='print', prog=EL.gen_prog(rng, f1_only=f1, max_params=rng.choice([3, 9]), delims=False, allow_nested=False, switches=False))))
     for toks in EL.all_small(2 if q else 3):
         out.append(('engine-small', dict(kind='engine', toks=toks, names=[n for n in EL.names_in(toks) if n not in EL.PRIMS])))
     return out
@@ -464,15 +464,25 @@ def obs_tokens(toks):
     return [[int(t.catcode), [ord(ch) for ch in str(t)]] for t in toks if t is not None]
 
 
-ELEM_CLASS = {'bgroup': 0, 'egroup': 1, 'def_': 2, 'gdef': 3, 'relax': 4, 'else_': 5, 'fi': 6, 'newcommand': 9, 'renewcommand': 10, 'let': 11}
+ELEM_CLASS = {'bgroup': 0, 'egroup': 1, 'def_': 2, 'gdef': 3, 'relax': 4, 'else_': 5, 'fi': 6, 'newcommand': 9, 'renewcommand': 10, 'let': 11, 'newif': 12}
 
 
 def run_engine(case):
     import plasTeX
     from plasTeX.TeX import TeX, TeXDocument
-    doc = TeXDocument()
-    tex = TeX(doc)
-    tex.disableLogging()
+    # building a fresh document reads files; on a loaded machine this has failed transiently, which is not an observation of the
+    # expansion loop: it is retried, and reported as a runner problem (never as a property violation) if it keeps failing
+    for attempt in range(3):
+        try:
+            doc = TeXDocument()
+            tex = TeX(doc)
+            tex.disableLogging()
+            break
+        except Exception as e:
+            if attempt == 2:
+                return ['runner', type(e).__name__, str(e)[:200]]
+            import time
+            time.sleep(0.5)
     ctx = doc.context
     for n in case['names']:
         if n in ctx:
@@ -504,6 +514,12 @@ def run_engine(case):
             means.append([4, max(int(c.nargs), 0), ([obs_tokens(c.opt)] if c.opt is not None else []), obs_tokens(c.definition or [])])
         elif isinstance(c, type) and issubclass(c, plasTeX.UnrecognizedMacro):
             means.append([2])
+        elif isinstance(c, type) and issubclass(c, plasTeX.NewIf):
+            means.append([5, 1 if c.state else 0])
+        elif isinstance(c, type) and issubclass(c, plasTeX.IfTrue):
+            means.append([6, 1])
+        elif isinstance(c, type) and issubclass(c, plasTeX.IfFalse):
+            means.append([6, 0])
         else:
             means.append([1])
     return [0, out, len(ctx.contexts), means]
@@ -578,6 +594,8 @@ def judge_engine(case, io, mo):
     den = mo[1] if len(mo) > 1 else None
     if isinstance(io, list) and io[:1] == ['skip']:
         return None
+    if isinstance(io, list) and io[:1] == ['runner']:
+        return dict(violation=False, key='C02:engine:runner', expected=eng, what='the implementation runner could not build a document: %s' % (io,))
     if eng[:1] == [-5]:
         return None          # the Model says it does not follow the code here (octal/hex constants, ...): not compared
     if eng[:1] == [-2]:
